@@ -2,6 +2,7 @@ package main
 
 import (
 	"fmt"
+	"go/constant"
 	"go/token"
 	"go/types"
 	"strings"
@@ -400,6 +401,15 @@ func (x *Exec) root() *Exec {
 // applyContract: assert requires, havoc the frame, assume ensures.
 func (x *Exec) applyContract(c *Contract, name string, args []Val, names []string, tys []types.Type, results *types.Tuple, p token.Pos) Val {
 	env := &SpecEnv{vars: map[string]SpecVal{}, x: x}
+	if err := x.usePreludes(c); err != nil {
+		x.specError(NamedExpr{Name: "prelude:" + name}, err)
+	}
+	if c.Dir != "" {
+		// names in a contract resolve in the package the contract is written in
+		if sp := x.V.Pkgs[x.V.Module+"/"+c.Dir]; sp != nil {
+			env.pkg = sp.Pkg
+		}
+	}
 	for i, n := range names {
 		if i < len(args) && n != "" && n != "_" {
 			var t types.Type
@@ -422,6 +432,29 @@ func (x *Exec) applyContract(c *Contract, name string, args []Val, names []strin
 		env.lets = append(append([]NamedExpr{}, c.Lets...), x.outerEnv.lets...)
 	}
 	x.callN[name]++
+	if x.parent == nil && x.c != nil && x.fn != nil && !x.discovering {
+		// the caller's own call-site conditions (ordering of effects: "by the time this
+		// call is made, ... already holds")
+		for _, cs := range x.c.CallSites {
+			if !strings.Contains(name, cs.Callee) {
+				continue
+			}
+			cenv := x.specEnvAt(x.cur, nil)
+			for i, a := range args {
+				var t types.Type
+				if i < len(tys) {
+					t = tys[i]
+				}
+				cenv.vars[fmt.Sprintf("arg%d", i)] = SpecVal{V: a, Go: t}
+			}
+			t, err := x.evalSpec(cs.E, cenv)
+			if err != nil {
+				x.specError(cs, err)
+				continue
+			}
+			x.oblige("callsite", fmt.Sprintf("callsite:%s:%d", cs.Name, x.callN[name]), x.reach, t, cs.Src, p)
+		}
+	}
 	for _, r := range c.Requires {
 		t, err := x.evalSpec(r.E, env)
 		if err != nil {
@@ -647,6 +680,59 @@ func (x *Exec) builtinSpec(f *ssa.Function, args []Val, call *ssa.CallCommon, p 
 		x.smt.assume(implies(x.reach, fmt.Sprintf("(forall ((i Int)) (! (= (select %s i) (slnth %s i)) :pattern ((select %s i))))", na, lst, na)))
 		x.setSV(sv, svs, "(store "+x.getSV(sv, svs)+" "+r+" "+na+")")
 		return tv("(mk-slice " + r + " 0 (sllen " + lst + "))"), true
+	case "fmt.Sprintf":
+		// a constant format made of literal text and %s verbs: when every operand is a
+		// string the result is the concatenation (anything else stays uninterpreted)
+		if len(args) == 2 && call != nil {
+			if fc, ok := call.Args[0].(*ssa.Const); ok && fc.Value != nil && fc.Value.Kind() == constant.String {
+				format := constant.StringVal(fc.Value)
+				pieces := strings.Split(format, "%s")
+				if !strings.Contains(strings.Join(pieces, ""), "%") {
+					r := tv(x.smt.fresh("sprintf", "Str"))
+					s := x.termOf(args[1])
+					h := x.getSV("SH.Any", "(Array Int (Array Int Any))")
+					var guard []Term
+					var parts []Term
+					if pieces[0] != "" {
+						parts = append(parts, x.smt.strLit(pieces[0]))
+					}
+					for k := 1; k < len(pieces); k++ {
+						el := fmt.Sprintf("(select (select %s (sref %s)) (ix (soff %s) %d))", h, s, s, k-1)
+						guard = append(guard, "((_ is AStr) "+el+")")
+						parts = append(parts, "(astr "+el+")")
+						if pieces[k] != "" {
+							parts = append(parts, x.smt.strLit(pieces[k]))
+						}
+					}
+					if len(parts) == 0 {
+						parts = append(parts, x.smt.strLit(""))
+					}
+					cat := parts[0]
+					for _, q := range parts[1:] {
+						cat = "(sconcat " + cat + " " + q + ")"
+					}
+					guard = append(guard, fmt.Sprintf("(= (slen %s) %d)", s, len(pieces)-1))
+					x.smt.assume(implies(x.reach, implies(and(guard...), eq(r.T, cat))))
+					x.V.noteAssumed("fmt.Sprintf with a constant %s-only format and string operands = concatenation [built-in model of the standard library]")
+					return r, true
+				}
+			}
+		}
+	case "(encoding/binary.bigEndian).PutUint64":
+		// writes the 8 big-endian bytes of v into the (whole) local byte array b views
+		if len(args) == 3 && args[1].Origin != nil {
+			x.needDecl("be64", "(declare-fun be64 (Int) Str)")
+			x.writeLoc(args[1].Origin, "(be64 "+x.termOf(args[2])+")")
+			x.V.noteAssumed(name + " writes be64(v) [built-in model of the standard library]")
+			return Val{KnownLen: -1}, true
+		}
+	case "encoding/binary.PutUvarint":
+		if len(args) == 2 && args[0].Origin != nil {
+			x.needDecl("uvar", "(declare-fun uvar (Int) Str)")
+			x.writeLoc(args[0].Origin, "(uvar "+x.termOf(args[1])+")")
+			x.V.noteAssumed(name + " writes uvar(v) [built-in model of the standard library]")
+			return tv(x.smt.fresh("uvarn", "Int")), true
+		}
 	case "bytes.HasPrefix", "strings.HasPrefix":
 		return tv("(hasprefix " + x.termOf(args[0]) + " " + x.termOf(args[1]) + ")"), true
 	}
